@@ -13,12 +13,15 @@ M = 'MorphKgc.Props.C05'
 THEOREMS = [{'name': f'Props.C05.{n}', 'module': M} for n in [
     'chainOK_template', 'chainOK_fnml', 'C05_escape_roundtrip', 'C05_escape_roundtrip_fnml', 'C05_sites_agree',
     'C05_literal_term', 'C05_delims', 'C05_pct_roundtrip', 'C05_pct_alphabet', 'C05_pct_valid_iri',
-    'C05_F1_reference_iri_not_encoded', 'C05_template_iri_encoded', 'C05_F2_bnode_label_raw']]
+    'C05_F1_reference_iri_not_encoded', 'C05_template_iri_encoded', 'C05_F2_bnode_label_raw',
+    'C05_rules_lines_valid', 'C05_engine_lines_valid_partial', 'C05_lines_injective', 'C05_literal_is_cell',
+    'C05_template_iri_decodes', 'C05_F1_line_not_parsed']]
 RULE = ('(I2) _materialize_template on one-row frames over term kind x term type x datatype x safe_percent_encoding x '
         'only_printable_chars with values drawn from every code-point class (controls, quotes, backslashes, line breaks, '
         'IRI-reserved, non-BMP); (pct) falcon encode_value / urllib quote vs Model.pctEncode (thorough: all 1,112,064 scalar '
         'values); (oracle) single-rule mappings run through materialize_set, every line parsed strictly with pyoxigraph and '
-        'decoded back. non-trivial = the value contains a character the site must transform or reject; distinct = (rule shape, value).')
+        'decoded back, and also lexed by the verified Lean lexer Spec.NQ.parseLine (driver op parse_line): both parsers must return the '
+        'same statement. non-trivial = the value contains a character the site must transform or reject; distinct = (rule shape, value).')
 TRUSTED_BASE = [
     'modelled, not verified: falcon.uri.encode_value and urllib.parse.quote (compared on every scalar value in the thorough tier), '
     'pandas .str.replace(regex=False), str.isprintable (a parameter of the model)',
@@ -60,6 +63,37 @@ def parses(line, nquads):
         return list(pyoxigraph.parse(io.BytesIO((line + ' .\n').encode('utf-8')), 'application/n-quads' if nquads else 'application/n-triples'))
     except Exception:
         return None
+
+
+def ox_term(t):
+    """pyoxigraph term -> the JSON shape of the Lean driver's stmtToJson"""
+    import pyoxigraph as ox
+    if isinstance(t, ox.NamedNode):
+        return {'k': 'iri', 'v': t.value}
+    if isinstance(t, ox.BlankNode):
+        return {'k': 'bnode', 'v': t.value}
+    if isinstance(t, ox.Literal):
+        lang = t.language
+        dt = t.datatype.value
+        if lang is not None:
+            return {'k': 'lit', 'v': t.value, 'lang': lang, 'dt': None}
+        return {'k': 'lit', 'v': t.value, 'lang': None, 'dt': None if dt == cg.XSD + 'string' else dt}
+    if isinstance(t, ox.DefaultGraph):
+        return None
+    if isinstance(t, ox.Triple):
+        return {'k': 'quoted', 's': ox_term(t.subject), 'p': ox_term(t.predicate), 'o': ox_term(t.object)}
+    return {'k': '?', 'v': str(t)}
+
+
+def no_labels(j):
+    if isinstance(j, dict):
+        return {k: (None if (j.get('k') == 'bnode' and k == 'v') else no_labels(v)) for k, v in j.items()}
+    return j
+
+
+def ox_stmt(q):
+    g = getattr(q, 'graph_name', None)
+    return {'s': ox_term(q.subject), 'p': ox_term(q.predicate), 'o': ox_term(q.object), 'g': ox_term(g) if g is not None else None}
 
 
 def term_ok(term):
@@ -252,8 +286,24 @@ def oracle_case(ctx, rng, d, it):
         return
     nq = fmt == 'N-QUADS'
     by_subject = {}
+    drv = ctx.get_driver() if ctx.model_available else None
     for line in res:
         st = parses(line, nq)
+        if drv and not vlibs(line):
+            # the verified lexer of Spec/NQuads.lean against the reference parser, on what the engine really printed
+            lst = drv.call('parse_line', text=line + ' .')
+            if st is not None and len(st) == 1:
+                if lst is None:
+                    if scope() is None:
+                        ctx.disagree('Spec.NQ.parseLine rejects a line pyoxigraph accepts', {'line': line}, lst, ox_stmt(st[0]))
+                    else:
+                        ctx.bump('lexer stricter than pyoxigraph inside a finding scope')
+                elif no_labels(lst) != no_labels(ox_stmt(st[0])):   # pyoxigraph.parse renames blank nodes
+                    ctx.disagree('Spec.NQ.parseLine and pyoxigraph read different statements', {'line': line}, lst, ox_stmt(st[0]))
+                else:
+                    ctx.bump('lines read identically by Spec.NQ.parseLine and pyoxigraph')
+            elif lst is not None:
+                ctx.bump('line accepted by Spec.NQ.parseLine only (pyoxigraph validates IRIs/labels more strictly)')
         if st is None or len(st) != 1:
             ctx.violation(f'emitted line is not a valid {"N-Quads" if nq else "N-Triples"} statement: {line!r}', inp, finding=scope())
             return
